@@ -238,6 +238,8 @@ void run_case(Choices &c, Ctx &ctx)
 		ctx.label("uint64_node");
 	if (g.f_retained)
 		ctx.label("retained_text");
+	if (g.f_wide)
+		ctx.label("wide_container");
 	if (tree.nesting() >= 2)
 		ctx.label("nesting_ge2");
 	std::string fl;
